@@ -260,6 +260,8 @@ parseinit(struct scope *s, struct type *t)
 				expr = exprassign(expr, t);
 				goto add;
 			}
+			if (!p.cur)
+				error(&tok.loc, "initializer for aggregate must be brace-enclosed or have a compatible type");
 			focus(&p);
 		}
 	add:
